@@ -1,5 +1,6 @@
 import MuduoVerif.Proofs.ConnFlow
 import MuduoVerif.Proofs.ConnLifeTrace
+import MuduoVerif.Proofs.ConnProgress
 /-!
 # C03 — shutdown() flushes everything before FIN; forceClose() closes at once, safely
 
@@ -56,6 +57,47 @@ theorem force_once :
   rw [h2]; split <;> omega
 
 end
+
+/-- **forceClose closes at once**: `forceClose()` on any thread, in any reachable state, with
+anything else queued and whatever events the next poll reports: after ONE loop iteration the
+connection is down, DOWN was reported exactly once, nothing aborted - it does not wait for the peer -/
+theorem forceClose_brings_down (c0 : Conn) (h0 : Fresh c0) (ins : List Input) (hne : ∀ i ∈ ins, i.notEstablish)
+    (f : Bool) (a : List Src) :
+    (iter (act (reach c0 ins) f .forceClose) a).st = .kDisconnected ∧
+    C02.cnt C02.isDownEv (iter (act (reach c0 ins) f .forceClose) a).trace = 1 ∧
+    C02.cnt C02.isBadEv (iter (act (reach c0 ins) f .forceClose) a).trace = 0 :=
+  have hl := (reach_all c0 h0 ins hne).2.1
+  ⟨Conn.forceClose_brings_down _ f a hl, (forceClose_reports_down _ f a hl).1, (forceClose_reports_down _ f a hl).2.1⟩
+
+/-- **delayed forced close**: `forceCloseWithDelay(us)` on the loop thread, the clock advanced by at
+least `us`, then one iteration in which the timer descriptor is reported: the connection is down.
+Called on another thread it takes one iteration more (the first one arms the timer); the bound is
+tight (`delayed_close_foreign_needs_two` in `Proofs/ConnProgress.lean`) -/
+theorem delayed_close_brings_down (c0 : Conn) (h0 : Fresh c0) (ins : List Input) (hne : ∀ i ∈ ins, i.notEstablish)
+    (us d : Nat) (a1 a2 : List Src) (hd : us ≤ d) (hm : Src.timer ∈ a2) :
+    (iter (step (act (reach c0 ins) false (.forceCloseDelay us)) (.advance d)) a2).st = .kDisconnected ∧
+    (iter (step (iter (act (reach c0 ins) true (.forceCloseDelay us)) a1) (.advance d)) a2).st = .kDisconnected :=
+  have hl := (reach_all c0 h0 ins hne).2.1
+  ⟨Conn.delayed_close_brings_down _ us d a2 hl hd hm, delayed_close_foreign_brings_down _ us d a1 a2 hl hd hm⟩
+
+/-- **the FIN is sent**: `shutdown()` on any thread on a connected connection with nothing left to
+write and no earlier `send()` still queued: the next loop iteration half-closes the socket,
+whatever events arrive in it -/
+theorem shutdown_sends_fin (c0 : Conn) (h0 : Fresh c0) (ins : List Input) (hne : ∀ i ∈ ins, i.notEstablish)
+    (f : Bool) (a : List Src) (hst : (reach c0 ins).st = .kConnected) (ho : (reach c0 ins).outBuf = [])
+    (hq : (reach c0 ins).queue.all (fun t => !t.isSend) = true) :
+    (iter (act (reach c0 ins) f .shutdown) a).shutWr = true :=
+  have h := reach_all c0 h0 ins hne
+  Conn.shutdown_sends_fin _ f a h.2.1 h.1 hst ho hq
+
+/-- … and with a backlog: once the backlog has drained and nothing is queued ahead of the deferred
+half-close, the next iteration sends the FIN -/
+theorem fin_after_drain (c0 : Conn) (h0 : Fresh c0) (ins : List Input) (hne : ∀ i ∈ ins, i.notEstablish)
+    (a : List Src) (hst : (reach c0 ins).st = .kDisconnecting) (ho : (reach c0 ins).outBuf = [])
+    (hq : (reach c0 ins).queue.all (fun t => !t.isSend) = true) (hs : ∃ t ∈ (reach c0 ins).queue, t.isShut = true) :
+    (iter (reach c0 ins) a).shutWr = true :=
+  have h := reach_all c0 h0 ins hne
+  fin_progress' _ a h.2.1 h.1 hst ho hq hs
 
 /-- the model performs the state test and the state store of `shutdown()` / `forceClose()` /
 `forceCloseWithDelay()` as ONE step (`act`).  That is what the code does only because each is a
